@@ -25,6 +25,11 @@ Streams
             threshold x number_of_unrolls x temperature x use_real_sigmoid, four API routes, three argument forms,
             on "cascade" tensors on which the number of unrolls matters; attributes vs the Lean constructor
             model; whole-call Lean model (unrolled scale/threshold iteration) per channel
+  layers    (third strengthening round) the quantizer reached through LAYER objects (QActivation from object /
+            text / from_config, keras Activation, activation= of QDense / QConv2D, kernel_quantizer= of QDense,
+            Sequential / functional Model.__call__, Model.predict / predict_on_batch), ONE layer object called
+            with the same input signature while the learning phase is switched between the calls, both orders;
+            same clause oracle; Lean history model layerRun (eager vs traced layer)
 """
 from fractions import Fraction
 import math
@@ -429,6 +434,13 @@ def run(run: core.Run, tier: str):
       "code: histogram unroll_*), second call, after a training call, after number_of_unrolls is re-assigned, "
       "after _set_trainable_parameter; attributes vs the Lean constructors; Lean whole-call model per channel "
       "(exact for auto_po2 inside the 2^-10 band around sqrt2*2^k and for numeric alpha, sign pattern for auto). "
+      "layers stream: the 12 cross-cutting configurations x 9 eager layer routes (QActivation object / text / "
+      "from_config, keras Activation, QDense / QConv2D activation=, QDense kernel_quantizer=, Sequential / functional "
+      "Model.__call__) x phase orders (1,0,1,0) and (0,1,0,1) on ONE layer object with the same input signature "
+      "(built under the opposite phase), then a second signature; Model.predict / predict_on_batch (3 configurations "
+      "in quick) against the traced layer model; stochastic_binary / stochastic_ternary / binary(flag) / "
+      "ternary(flag) behind the activation routes against the deterministic counterpart (phase 0) and a fresh bare "
+      "quantizer under the same draws (training). "
       "non-trivial = distinct (class, configuration, stream, variant)")
   run.assumptions += [
       "tf.random.uniform returns float32 multiples of 2^-23 in [0,1), independent per element; it is "
@@ -490,6 +502,7 @@ def run(run: core.Run, tier: str):
     _prim(run, tier, rng, tf, Q, K, draws)
     cases = _classes(run, tier, rng, tf, Q, K, draws, call)
     _crosscut(run, tier, rng, tf, Q, K, draws, call, cases)
+    _layers(run, tier, np.random.default_rng([run.seed, 909]), tf, Q, K, draws, call, cases)
     _lattice(run, tier, rng, tf, Q, K, draws, call)
     _live(run, tier, rng, tf, Q, K, draws, call)
     if not quick:
@@ -689,8 +702,17 @@ def _judge_class(run, rec, o):
   c = rec["c"]
   cls, cfg, xs, ps, r = c["cls"], c["cfg"], c["xs"], c["ps"], c["ref"]
   ident = {"cls": cls, "cfg": str(cfg), "stream": rec["stream"], "variant": rec["variant"]}
-  # known-finding key: class (+ option mode of the power-of-two classes) + kind
+  # known-finding key: class (+ option mode of the power-of-two classes) + kind (+ the layer route)
   kbase = {"class": cls}
+  if rec.get("route"):
+    # eager routes share one key (one defect = one line; the route is in the detail); the Keras-traced
+    # predict routes have their own
+    kbase["route"] = rec["route"] if rec["route"] in PREDICT_ROUTES else "layer"
+    ident["route"] = rec["route"]
+    ident["history"] = rec.get("history")
+    if rec.get("replay"):
+      # Model.predict: this call re-runs the tf.function traced at the FIRST predict of this model object
+      kbase["trace"] = "replayed"
   mode = None
   if "po2" in cls:
     mode = po2_mode(cfg)
@@ -1624,6 +1646,252 @@ def _crosscut(run, tier, rng, tf, Q, K, draws, call, cases):
   outs = core.run_driver("C08", lines)
   for rec, o in zip(recs, outs):
     _judge_class(run, rec, o)
+
+
+# ---- layer objects holding a quantizer, used several times in both phases ------------------------------
+
+EAGER_ROUTES = ("QActivation", "QActivation-str", "QActivation-from_config", "keras-Activation",
+                "QDense-activation", "QConv2D-activation", "Sequential-call", "Functional-call",
+                "QDense-kernel_quantizer")
+PREDICT_ROUTES = ("Model.predict", "Model.predict_on_batch")
+# routes whose construction already runs the quantizer (symbolic model input; QDense.__init__ probing its
+# kernel quantizer): built at phase 0, where no draw is needed
+MODEL_ROUTES = ("Sequential-call", "Functional-call", "QDense-kernel_quantizer") + PREDICT_ROUTES
+# order of the learning phases on ONE layer object, all calls with the same input signature; "s" = one
+# more phase-0 / phase-1 pair on ANOTHER input shape at the end (where the route allows it)
+LAYER_ORDERS = ((1, 0, 1, 0), (0, 1, 0, 1))
+
+
+def _layer_route(tf, Q, QL, route, q, ncol):
+  """(callable tensor -> tensor around ONE layer object holding the quantizer object `q`, rank of the
+  input it needs) or None when the route cannot be built for this quantizer"""
+  L = tf.keras.layers
+  if route == "QActivation":
+    lay = QL.QActivation(q)
+    return lay, 2
+  if route == "QActivation-str":
+    lay = QL.QActivation(str(q))
+    return lay, 2
+  if route == "QActivation-from_config":
+    l0 = QL.QActivation(q)
+    lay = QL.QActivation.from_config(l0.get_config())
+    return lay, 2
+  if route == "keras-Activation":
+    return L.Activation(q), 2
+  if route == "QDense-activation":
+    lay = QL.QDense(ncol, activation=q, use_bias=False, kernel_initializer="identity")
+    return lay, 2
+  if route == "QConv2D-activation":
+    from qkeras import QConv2D
+    lay = QConv2D(ncol, (1, 1), activation=q, use_bias=False,
+                  kernel_initializer=tf.keras.initializers.Constant(
+                      np.eye(ncol, dtype=np.float32).reshape(1, 1, ncol, ncol)))
+    return lay, 4
+  if route == "Sequential-call":
+    return tf.keras.Sequential([L.InputLayer((ncol,)), QL.QActivation(q)]), 2
+  if route in ("Functional-call",) + PREDICT_ROUTES:
+    i = tf.keras.Input((ncol,))
+    m = tf.keras.Model(i, QL.QActivation(q)(i))
+    if route == "Functional-call":
+      return m, 2
+    if route == "Model.predict":
+      return (lambda t: m.predict(t, verbose=0)), 2
+    return (lambda t: m.predict_on_batch(t)), 2
+  if route == "QDense-kernel_quantizer":
+    before = q.get_config()
+    lay = QL.QDense(ncol, kernel_quantizer=q, use_bias=False)
+    lay.build((None, ncol))
+    kq = lay.kernel_quantizer_internal
+    if kq.get_config() != before:
+      return None          # _set_trainable_parameter changed the options (alpha None -> "auto_po2"): other config
+    eye = tf.constant(np.eye(ncol, dtype=np.float32))
+
+    def fn(t):
+      lay.kernel.assign(tf.reshape(tf.convert_to_tensor(t), (ncol, ncol)))
+      return tf.reshape(lay(eye), tf.shape(t))
+    return fn, 2
+  raise ValueError(route)
+
+
+def _layers(run, tier, rng, tf, Q, K, draws, call, cases):
+  """the clause oracle and the model comparison of `_classes` on LAYER objects that hold the quantizer
+  (QActivation built from the object / from its text / from_config, keras Activation, the activation= and
+  kernel_quantizer= slots of QDense / QConv2D, Sequential / functional Model.__call__), each layer object
+  called several times with the SAME input signature while the learning phase is switched between the
+  calls, in both orders (1,0,1,0) and (0,1,0,1): the k-th use must be what a fresh bare quantizer does in
+  the phase of that call with the draws of that call (Lean: layerRun qactivationTraced, C08_layer_history_*).
+  Model.predict / predict_on_batch run the layer inside ONE cached tf.function per model object: they are
+  compared with the TRACED layer model (layerRun kerasPredictTraced) and judged by the same clauses."""
+  import qkeras as QL
+  quick = tier == "quick"
+  by_key = {(c["cls"], str(c["cfg"])): c for c in cases}
+  ncol = 4
+  hists = []                      # (traced, [line...], [rec...])
+  for ci, (cls, cfg) in enumerate(XC_CONFIGS):
+    full = by_key.get((cls, str(cfg)))
+    if full is None:
+      full = build_case(tf, Q, K, cls, cfg, rng)
+      attach_refs(run, [full])
+    n = len(full["xs"])
+    idx = sorted(int(i) for i in rng.choice(n, size=min(16, n), replace=False))
+    idx = idx[: (len(idx) // ncol) * ncol]
+    c = sub_case(full, idx)
+    m = len(idx)
+    qd = make_q(Q, cls, cfg, False)
+    routes = list(EAGER_ROUTES)
+    if ci in (0, 3, 7) or not quick:
+      routes += list(PREDICT_ROUTES)
+    for route in routes:
+      traced = route in PREDICT_ROUTES
+      for order in LAYER_ORDERS:
+        qs = make_q(Q, cls, cfg, True)
+        if route == "QActivation-str":
+          try:
+            qr = Q.get_quantizer(str(qs))
+            ok = isinstance(qr, type(qs)) and all(getattr(qr, k, None) == getattr(qs, k, None) for k in cfg) \
+                and bool(qr.use_stochastic_rounding)
+          except Exception:  # pylint: disable=broad-except
+            ok = False
+          if not ok:         # the text does not reproduce the options: C10's subject
+            run.count("layer_route_unusable_%s" % route)
+            continue
+        # the layer is BUILT under the phase opposite to its first use (Keras models, which run the layer
+        # once on a symbolic input while they are built, under phase 0: no draw is queued at that time)
+        K.set_learning_phase(0 if route in MODEL_ROUTES else 1 - order[0])
+        try:
+          built = _layer_route(tf, Q, QL, route, qs, ncol)
+        except Exception as e:  # pylint: disable=broad-except
+          run.disagree("layer", {"cls": cls, "cfg": str(cfg), "route": route, "what": "building the layer raised"},
+                       str(e)[:200], None)
+          continue
+        if built is None:
+          run.count("layer_route_unusable_%s" % route)
+          continue
+        fn, rank = built
+        shape = (m // ncol, ncol) if rank == 2 else (1, m // ncol, 1, ncol)
+        if route == "QDense-kernel_quantizer":
+          if m != ncol * ncol:
+            run.count("layer_route_unusable_%s" % route)
+            continue
+          shape = (ncol, ncol)
+        lines, recs = [], []
+        hname = "".join(map(str, order))
+        seen_sig = set()
+        steps = [(ph, shape) for ph in order]
+        if rank == 2 and route not in PREDICT_ROUTES and route != "QDense-kernel_quantizer" and m % (2 * ncol) == 0:
+          # the same object on another input signature afterwards (rank 3 where the layer takes it)
+          shape3 = (2, m // (2 * ncol), ncol) if route not in ("Sequential-call", "Functional-call") else None
+          if shape3:
+            steps += [(order[0], shape3), (order[1], shape3)]
+        for k, (ph, shp) in enumerate(steps):
+          tag = "layer-%s-%s-call%d-%s" % (route, hname, k, "train" if ph else "phase0")
+          n0 = len(recs)
+          replay = traced and shp in seen_sig
+          if ph:
+            train_rec(c, fn, call, rng, ("below", "above", "at", "zero")[k % 4], tag=tag, lines=lines, recs=recs,
+                      shape=shp)
+            if replay:
+              recs[-1]["expect_left"] = q_draws(cls, cfg)     # a replayed trace consumes no draw
+          else:
+            infer_rec(c, fn, qd, call, tag, lines, recs, shape=shp)
+          for r in recs[n0:]:
+            r["route"], r["history"], r["sig"] = route, hname, (0 if shp == shape else 1)
+            r["replay"] = replay
+          seen_sig.add(shp)
+        hists.append((traced, lines, recs))
+        run.count("layer_%s_%s" % (route, hname))
+  K.set_learning_phase(0)
+  wire = []
+  for traced, lines, recs in hists:
+    wire.append({"op": "layer", "traced": traced,
+                 "calls": [dict(l, sig=r["sig"]) for l, r in zip(lines, recs)]})
+  outs = core.run_driver("C08", wire)
+  for (traced, lines, recs), o in zip(hists, outs):
+    if o["qactivation_traced"] is not False or o["predict_traced"] is not True:
+      run.disagree("layer", {"what": "model constants"}, None, str(o)[:100])
+    for rec, oo in zip(recs, o["outs"]):
+      _judge_class(run, rec, oo)
+  _layers_sclasses(run, tier, rng, tf, Q, K, draws, call, QL)
+
+
+def _layers_sclasses(run, tier, rng, tf, Q, K, draws, call, QL):
+  """model-free: the stochastic classes (stochastic_binary / stochastic_ternary / binary(flag) / ternary(flag))
+  behind the eager layer routes, one layer object through both phase orders.  k-th use == a FRESH bare
+  quantizer of the same arguments in the phase of that call with the same draws (values and number of
+  draws consumed); at phase 0 == the deterministic counterpart, without a draw."""
+  xs32 = np.asarray([float(Fraction(int(k), 64)) for k in rng.integers(-96, 97, size=16)], dtype=np.float32)
+  ncol = 4
+  makers = [
+      ("stochastic_binary", lambda: Q.stochastic_binary(alpha=1.0), lambda: Q.binary(alpha=1.0)),
+      ("stochastic_binary", lambda: Q.stochastic_binary(alpha="auto_po2"), lambda: Q.binary(alpha="auto_po2")),
+      ("stochastic_ternary", lambda: Q.stochastic_ternary(alpha="auto_po2", number_of_unrolls=2),
+       lambda: Q.ternary(alpha="auto_po2", number_of_unrolls=2)),
+      ("stochastic_ternary", lambda: Q.stochastic_ternary(alpha=1.0, threshold=0.25),
+       lambda: Q.ternary(alpha=1.0, threshold=0.25)),
+      ("binary", lambda: Q.binary(alpha=1.0, use_stochastic_rounding=True), lambda: Q.binary(alpha=1.0)),
+      ("ternary", lambda: Q.ternary(alpha="auto_po2", use_stochastic_rounding=True, number_of_unrolls=2),
+       lambda: Q.ternary(alpha="auto_po2", number_of_unrolls=2)),
+  ]
+  NQ = 8
+  for cls, mk, mkd in makers:
+    label = str(mk())
+    for route in EAGER_ROUTES[:-1]:
+      for order in LAYER_ORDERS:
+        K.set_learning_phase(0 if route in MODEL_ROUTES else 1 - order[0])
+        q = mk()
+        if route == "QActivation-str":
+          try:
+            if str(Q.get_quantizer(str(q))) != str(q):
+              raise ValueError
+          except Exception:  # pylint: disable=broad-except
+            run.count("layer_route_unusable_%s" % route)
+            continue
+        try:
+          built = _layer_route(tf, Q, QL, route, q, ncol)
+        except Exception as e:  # pylint: disable=broad-except
+          run.disagree("layer-sclass", {"cls": label, "route": route, "what": "building the layer raised"},
+                       str(e)[:200], None)
+          continue
+        fn, rank = built
+        shape = (4, ncol) if rank == 2 else (1, 4, 1, ncol)
+        for k, ph in enumerate(order):
+          uval = (0.0, float(TOP), 0.25, 0.75)[k]
+          ul = [np.full(16, uval, dtype=np.float32).reshape(shape) for _ in range(NQ)] if ph else []
+          y, left = call(fn, xs32, ul, bool(ph), shape=shape)
+          yf, leftf = call(mk(), xs32, [u.copy() for u in ul], bool(ph), shape=shape)
+          key = {"class": cls, "route": "layer"}
+          ident = {"cls": label, "route": route, "history": "".join(map(str, order)), "call": k,
+                   "phase": ph, "draw_value": uval if ph else None}
+          run.case(("layer-sclass", label, route, order, k))
+          run.compared += 1
+          run.count("layer_sclass_%s" % route)
+          if isinstance(yf, Exception):
+            if not isinstance(y, Exception):
+              run.disagree("layer-sclass", dict(ident, what="bare quantizer raised, layer did not"), "value", str(yf)[:200])
+            continue                     # e.g. the assert of ternary(alpha=<number>) in training: not this stream's subject
+          if not ph:
+            yd, _ = call(mkd(), xs32, [], False, shape=shape)
+            if isinstance(y, DrawError):
+              run.violate("inference_equal", dict(key, kind="random-draw-at-inference"), dict(ident, error=str(y)),
+                          mirrored=False)
+            elif isinstance(y, Exception):
+              run.violate("runs", dict(key, kind=type(y).__name__), dict(ident, error=str(y)[:300]), mirrored=False)
+            elif not isinstance(yd, Exception) and not np.array_equal(y, yd):
+              i = int(np.nonzero(y != yd)[0][0])
+              run.violate("inference_equal", dict(key, kind="value"),
+                          dict(ident, x=float(xs32[i]), layer_output=float(y[i]), deterministic_counterpart=float(yd[i]),
+                               n_bad=int(np.sum(y != yd))), mirrored=False)
+            continue
+          if isinstance(y, Exception):
+            run.violate("runs", dict(key, kind=type(y).__name__), dict(ident, error=str(y)[:300]), mirrored=False)
+            continue
+          if left != leftf or not np.array_equal(y, yf):
+            i = int(np.nonzero(y != yf)[0][0]) if not np.array_equal(y, yf) else 0
+            run.violate("unbiased", dict(key, kind="training-call-not-a-fresh-draw"),
+                        dict(ident, x=float(xs32[i]), layer_output=float(y[i]), fresh_quantizer_output=float(yf[i]),
+                             draws_consumed_by_layer=NQ - left, draws_consumed_by_fresh_quantizer=NQ - leftf),
+                        mirrored=False)
+  K.set_learning_phase(0)
 
 
 # ---- option lattice beyond the model: inference equality, determinism, no draw -----------------------
